@@ -76,7 +76,8 @@ def run_check(prop, tier):
         return EXIT_INCONCLUSIVE
     nshards = getattr(module, "SHARDS", {}).get(tier, 16)
     nshards = max(1, min(nshards, int(os.environ.get("VERIF_JOBS", "16"))))
-    work = os.path.join(paths.WORK, prop)
+    # one scratch directory per run: two runs of the same check must not clobber each other
+    work = os.path.join(paths.WORK, prop, f"run-{os.getpid()}-{int(time.time())}")
     shutil.rmtree(work, ignore_errors=True)
     os.makedirs(work)
     hard = getattr(module, "HARD_S", {"quick": 600, "thorough": 7200})[tier]
@@ -108,7 +109,10 @@ def run_check(prop, tier):
         else:
             tail = open(log.name).read()[-600:].replace("\n", " | ")
             problems.append(f"shard {k} produced no result (exit {p.returncode}): {tail}")
-    return decide(prop, tier, seed, module, results, problems, work, time.monotonic() - t0)
+    status = decide(prop, tier, seed, module, results, problems, work, time.monotonic() - t0)
+    if status != EXIT_INCONCLUSIVE:
+        shutil.rmtree(work, ignore_errors=True)     # shard logs are kept only when something went wrong with the run itself
+    return status
 
 
 def merge(results, work):
